@@ -5,26 +5,26 @@ VERIF = os.path.dirname(os.path.dirname(os.path.abspath(__file__)))
 
 # property -> (technique, level text, level note, design ref)
 CHECKS = {
- "C01": ("runtime monitor: real ScancodeSet2 / Keyboard::add_byte run in lock-step with a reference prefix automaton + transcribed Set 2 table; product-BFS over every (decoder state, byte) transition, seeded hostile byte histories, all 2^24 three-byte streams (thorough); ordered pairs/triples of the byte bursts real keyboards send and typematic runs; long cyclic runs of a prefix-rich typing period verified on its first pass (2^32 calls in the process on 16 decoders in quick, plus 2^32 on one decoder in thorough); repeated from every further constructor the tree offers",
+ "C01": ("runtime monitor: real ScancodeSet2 / Keyboard::add_byte run in lock-step with a reference prefix automaton + transcribed Set 2 table; product-BFS over every (decoder state, byte) transition, seeded hostile byte histories, all 2^24 three-byte streams (thorough); ordered pairs/triples of the byte bursts real keyboards send and typematic runs; long cyclic runs of a prefix-rich typing period verified on its first pass (2^32 calls in the process on 16 decoders in quick, plus 2^32 on one decoder in thorough); repeated from every further constructor the tree offers; counters found in the executable's static memory while the workload runs are set to just below 2^8 / 2^16 / 2^32 (widths confirmed by observed carries) and the oracle is run across each wrap",
          "Every one of the decoder's reachable (state, byte) transitions is executed on the real code and compared with the reference, so for the finite transition relation the exploration is complete; unbounded stream length is covered by state closure (hook makes the whole state observable) plus sampled long hostile histories. Held-on-what-was-observed, not a proof.",
          "Trusted: refs/set2.tsv transcription of the IBM/Microsoft table (cross-checked against the README table at run time); the verif-hooks derives expose the decoder's complete state.", "5/C01"),
- "C02": ("runtime monitor: real ScancodeSet1 / Keyboard::add_byte in lock-step with a reference prefix automaton + transcribed Set 1 table; product-BFS over all 768 transitions, hostile histories, all 2^24 streams (thorough); real-world bursts, typematic runs and long cyclic runs (2·2^32 calls in the process in quick, 6·2^32 plus 2^32 on one decoder in thorough) as C01; repeated from every further constructor the tree offers",
+ "C02": ("runtime monitor: real ScancodeSet1 / Keyboard::add_byte in lock-step with a reference prefix automaton + transcribed Set 1 table; product-BFS over all 768 transitions, hostile histories, all 2^24 streams (thorough); real-world bursts, typematic runs and long cyclic runs (2·2^32 calls in the process in quick, 6·2^32 plus 2^32 on one decoder in thorough) as C01; repeated from every further constructor the tree offers; counters found in the executable's static memory while the workload runs are set to just below 2^8 / 2^16 / 2^32 (widths confirmed by observed carries) and the oracle is run across each wrap",
          "As C01 for Set 1. The 20 transitions of the five JIS keys are a genuine, recorded defect (known_findings.json K1); any other divergence is reported.",
          "Trusted: refs/set1.tsv transcription (JIS keys at the unprefixed codes, as the property states).", "5/C02"),
  "C03": ("offline oracle over a recorded cube of all 3.8M real map_keycode calls: transcribed national-standard tables per (layout, key, level) × every modifier set selecting that level × 3 layout forms (a key with an AltGr character in some AltGr-selecting state must have it in all); the same reference applied to every press typed through Keyboard::process_keyevent in hostile histories; end-to-end typing through Keyboard from reference scancodes of both sets; ABA histories with exactly 2^8 / 2^16 (thorough: 2^32, streamed) modifier changes between two presses of one key; further unit layouts shipped by the tree are typed through as well (reference-free part)",
          "Exhaustive over the finite quantifier domain of the property (all constrained cells × all selecting modifier sets × both modes); what is trusted is the transcription of the standards, which is written out in DESIGN.md A.3 for audit.",
          "Trusted: refs/layouts/*.tsv; cells where deployed standards differ accept each attested variant; AltGr constrained only where it differs from base.", "5/C03"),
- "C04": ("runtime monitor: modifier-record model in lock-step with the real decoder; BFS closure of the real Keyboard's state graph (1024 states) × every key × 3 key states × setters, probe presses through a recording layout, seeded hostile event histories over all layouts / both sets / bare EventDecoder; novelty-guided exploration of the Keyboard's Debug rendering (a state is expanded when it shows a pair of field values not seen before) with the model compared on every child; a hostile user-defined layout; further bool switches of Keyboard found in the tree are extra operations",
+ "C04": ("runtime monitor: modifier-record model in lock-step with the real decoder; BFS closure of the real Keyboard's state graph (1024 states) × every key × 3 key states × setters, probe presses through a recording layout, seeded hostile event histories over all layouts / both sets / bare EventDecoder; novelty-guided exploration of the Keyboard's Debug rendering (a state is expanded when it shows a pair of field values not seen before) with the model compared on every child; a hostile user-defined layout; further bool switches of Keyboard found in the tree are extra operations; counters found in the executable's static memory while the workload runs are set to just below 2^8 / 2^16 / 2^32 (widths confirmed by observed carries) and the oracle is run across each wrap",
          "Complete over the finite transition relation (every transition of every reachable state executed on the real code); histories of unbounded length are covered by closure plus sampled long runs.",
          "Trusted: the 12-line model is the statement of C04; Debug rendering of Keyboard shows the complete decoder state.", "5/C04"),
- "C05": ("runtime monitor: independent frame rule vs real Ps2Decoder::add_word on all 2048 words (new() and Default::default()), all single/double-bit corruptions of every valid frame, every frame through add_bit on a fresh decoder / after a frame of each class / after clear() from abandoned partial frames, Keyboard::add_word in every scancode prefix state against rule∘twin decoder (child process); 2^17+ rejected frames in a row and long mixed runs through add_bit; repeated from every further Ps2Decoder constructor the tree offers",
+ "C05": ("runtime monitor: independent frame rule vs real Ps2Decoder::add_word on all 2048 words (new() and Default::default()), all single/double-bit corruptions of every valid frame, every frame through add_bit on a fresh decoder / after a frame of each class / after clear() from abandoned partial frames, Keyboard::add_word in every scancode prefix state against rule∘twin decoder (child process); 2^17+ rejected frames in a row and long mixed runs through add_bit; repeated from every further Ps2Decoder constructor the tree offers; counters found in the executable's static memory while the workload runs are set to just below 2^8 / 2^16 / 2^32 (widths confirmed by observed carries) and the oracle is run across each wrap",
          "Exhaustive over all 2048 frames (the whole domain the property constrains).", "Trusted: the 8-line frame rule written from the property statement / PS/2 protocol.", "5/C05"),
- "C06": ("runtime monitor: shadow shift register + differential against the crate's own whole-word decoding (add_word); partial-state graph extracted from the real decoder (2047 states × 2 bits), all 2048² ordered frame pairs bit-serially, clear() from every partial state, seeded noisy bit streams with random clear(); every frame repeated 40 / 300 000 / 2 000 000 times, frame triples, one run of more than 2^32 bits through one decoder (both tiers)",
+ "C06": ("runtime monitor: shadow shift register + differential against the crate's own whole-word decoding (add_word); partial-state graph extracted from the real decoder (2047 states × 2 bits), all 2048² ordered frame pairs bit-serially, clear() from every partial state, seeded noisy bit streams with random clear(); every frame repeated 40 / 300 000 / 2 000 000 times, frame triples, one run of more than 2^32 bits through one decoder (both tiers); counters found in the executable's static memory while the workload runs are set to just below 2^8 / 2^16 / 2^32 (widths confirmed by observed carries) and the oracle is run across each wrap",
          "Exhaustive over every partial state × bit and every ordered frame pair; frames after clear() sampled in quick, exhaustive in thorough; unbounded streams by closure + 10^9 noisy bits (thorough).",
          "Trusted: Ps2Decoder's derived Debug shows its whole state (only used for the 'back to fresh' check; the pair sweep is behavioural).", "5/C06"),
  "C07": ("runtime monitor, reference-table-free: after every event/error the real decoder must == new() (hook) and a cloned twin must answer like a fresh decoder; every result must equal what a fresh decoder returns for the bytes since the last event/error; None-run bound; all 2^24 three-byte streams (quick) / all 2^32 four-byte streams (thorough) for both sets, plus garbage histories; behavioural probes after real-world bursts; the whole monitor repeated from every further constructor of the scancode sets that the tree offers (build-time discovery)",
          "Exhaustive over every (state, byte) transition and over all streams up to length 3 (quick) / 4 (thorough), which exceeds the longest sequence (3 bytes) by one, so any leak across a sequence boundary is exercised.", "Trusted: nothing beyond the hook derives.", "5/C07"),
- "C08": ("runtime monitor: catch_unwind around every call in a build with overflow checks + debug assertions, driving every (reachable state × input) pair of every stage, all 65 536 u16 words, all 30 layout objects × 124 × 512 × 2, soak workloads (each frame / byte / event repeated 70 000 times), hostile mixtures; per-public-operation call counts; a crash of the monitor process is a violation; a Miri (UB-detecting interpreter) pass over a reduced version of the same workloads (quick: one seeded slice covering all scancode transitions and every layout; thorough: 16 shards, 1.1M interpreted calls), interpreted and native checksums compared; thorough: more than 2^32 operations on one object of each stage (scancode sets, Ps2Decoder::add_bit, EventDecoder::process_keyevent); repeated from every further decoder constructor the tree offers",
+ "C08": ("runtime monitor: catch_unwind around every call in a build with overflow checks + debug assertions, driving every (reachable state × input) pair of every stage, all 65 536 u16 words, all 30 layout objects × 124 × 512 × 2, soak workloads (each frame / byte / event repeated 70 000 times), hostile mixtures; per-public-operation call counts; a crash of the monitor process is a violation; a Miri (UB-detecting interpreter) pass over a reduced version of the same workloads (quick: one seeded slice covering all scancode transitions and every layout; thorough: 16 shards, 1.1M interpreted calls), interpreted and native checksums compared; thorough: more than 2^32 operations on one object of each stage (scancode sets, Ps2Decoder::add_bit, EventDecoder::process_keyevent); repeated from every further decoder constructor the tree offers; counters found in the executable's static memory while the workload runs are set to just below 2^8 / 2^16 / 2^32 (widths confirmed by observed carries) and the oracle is run across each wrap",
          "All finite (state × input) spaces are driven completely, so a panic on any input in any reachable state of a single stage is observed; Miri adds UB detection on ~10^5 interpreted calls.",
          "Trusted: rustc's overflow checks; panic=unwind; state reachability as established by the closures of C01–C07/C04.", "5/C08"),
  "C09": ("offline metamorphic oracle over the recorded cube: a key's observed unmodified output defines its letter; Ctrl+letter must give that letter's control character; otherwise the mode / Ctrl must change nothing; 10 layouts × 124 × 512 × 2, and the same predicate on every press typed through Keyboard::process_keyevent in hostile histories; ABA histories (2^8 / 2^16 / thorough 2^32 changes); further unit layouts shipped by the tree",
@@ -37,13 +37,13 @@ CHECKS = {
          "Exhaustive; reference-free.", "Trusted: none.", "5/C12"),
  "C13": ("relational runtime monitor: both real decoders on sequences paired through the i8042 translation table (forward: all translatable Set 2 codes × 3 contexts × make/break; converse: every Set 1 event against its pre-images); end-to-end typing sessions through a streaming controller model into two Keyboards; typematic runs of 300+ repeats in the end-to-end sessions",
          "Exhaustive over the code space; the 20 JIS-key pairs are a recorded genuine defect (K1).", "Trusted: refs/i8042_xlate.tsv (Brouwer §10).", "5/C13"),
- "C14": ("runtime monitor with a recording layout that answers each consultation with a unique token: from every decoder state every key × 3 key states, all orderings of mode/layout changes between two presses, hostile histories with interleaved set_ctrl_handling / change_layout; plus, on the ten typed Keyboard<L,_> instantiations, every press in hostile histories compared with a direct call of the shipped layout at the reported modifiers and mode; the same differential over a hostile user-defined layout, two keys pressed alternately 70 000 times (thorough 2^32) without release, ABA histories (2^8 / 2^16 / thorough 2^32 changes); novelty-guided exploration of the Keyboard's Debug rendering with the differential on every child; further bool switches of Keyboard found in the tree are extra operations",
+ "C14": ("runtime monitor with a recording layout that answers each consultation with a unique token: from every decoder state every key × 3 key states, all orderings of mode/layout changes between two presses, hostile histories with interleaved set_ctrl_handling / change_layout; plus, on the ten typed Keyboard<L,_> instantiations, every press in hostile histories compared with a direct call of the shipped layout at the reported modifiers and mode; the same differential over a hostile user-defined layout, two keys pressed alternately 70 000 times (thorough 2^32) without release, ABA histories (2^8 / 2^16 / thorough 2^32 changes); novelty-guided exploration of the Keyboard's Debug rendering with the differential on every child; further bool switches of Keyboard found in the tree are extra operations; counters found in the executable's static memory while the workload runs are set to just below 2^8 / 2^16 / 2^32 (widths confirmed by observed carries) and the oracle is run across each wrap",
          "Complete over the 1024 × 124 × 3 transition space and over all short orderings; longer histories sampled.", "Trusted: the live modifier record is read from EventDecoder's Debug rendering.", "5/C14"),
  "C15": ("offline oracle over the recorded cube: small tables (numpad digit ↔ navigation alias, operators, decimal separator per layout, six editing keys) in all 512 × 2 states × 10 layouts, and on every press typed through Keyboard::process_keyevent in hostile histories (numpad keys re-pressed while held, NumLock toggled in between); ABA histories (2^8 / 2^16 / thorough 2^32 changes); further unit layouts shipped by the tree",
          "Exhaustive.", "Trusted: tables of DESIGN.md A.4.", "5/C15"),
  "C16": ("offline oracle over the recorded cube (30 layout objects): 52 character-less keys must be RawKey(self) everywhere; any RawKey output must be the key itself or its NumLock-off alias; the same on every press typed through Keyboard::process_keyevent in hostile histories; further unit layouts shipped by the tree; further bool switches of Keyboard are extra operations in the histories",
          "Exhaustive.", "Trusted: the list of 52 character-less keys (DESIGN.md A.4).", "5/C16"),
- "C17": ("differential over the recorded cube: AnyLayout by value and by reference vs the wrapped layout (2.5M comparisons), change_layout through all 100 ordered variant pairs; static-memory watch: the executable's writable static memory is snapshotted around AnyLayout look-ups, and if look-ups write there, inputs that leave a written word with the same value are looked up back to back and compared with the wrapped layout (finds caches keyed on a lossy hash)",
+ "C17": ("differential over the recorded cube: AnyLayout by value and by reference vs the wrapped layout (2.5M comparisons), change_layout through all 100 ordered variant pairs; static-memory watch: the executable's writable static memory is snapshotted around AnyLayout look-ups, and if look-ups write there, inputs that leave a written word with the same value are looked up back to back and compared with the wrapped layout (finds caches keyed on a lossy hash); counters found in the executable's static memory while the workload runs are set to just below 2^8 / 2^16 / 2^32 (widths confirmed by observed carries) and the oracle is run across each wrap",
          "Exhaustive.", "Trusted: none.", "5/C17"),
  "C18": ("differential runtime monitor: every operation applied to a real Keyboard and to three separately owned real stage objects; results, sub-state renderings and isolation compared after each op; per-operation sweeps with other stages parked non-initial; hostile interleavings of all six entry points with line noise, both sets; all 65 536 u16 values into add_word; the same differential with a scripted user-defined ScancodeSet that returns every Error variant",
          "Per-operation sweeps are complete over the fed stage's (state, input) space with the other stages parked in sampled non-initial states; interleavings sampled (10^6 quick / 2·10^8 thorough).",
